@@ -746,6 +746,14 @@ def const_str(e):
     return None
 
 
+def const_bytes(e):
+    """byte-string constant (b"..", or the template of a format_args!) as bytes, else None"""
+    e = peel(e)
+    if e[0] == "const" and isinstance(e[1], tuple) and e[1][0] == "bytes":
+        return bytes(e[1][1])
+    return None
+
+
 def const_char(e):
     e = peel(e)
     if e[0] == "const" and isinstance(e[1], tuple) and e[1][0] == "char":
